@@ -274,3 +274,202 @@ func init() {
 		return p
 	}
 }
+
+// e2p mirrors w.E2Params.
+type e2p struct {
+	Clients  int      `json:"clients"`
+	Keys     []string `json:"keys,omitempty"`
+	Type     string   `json:"type"`
+	Modes    []string `json:"modes,omitempty"`
+	Alpha    string   `json:"alpha,omitempty"`
+	Oracles  []string `json:"oracles"`
+	SyncType string   `json:"sync_type,omitempty"`
+	Colls    []string `json:"colls,omitempty"`
+	Prefix   string   `json:"prefix,omitempty"`
+	Exchange string   `json:"exchange,omitempty"`
+	Faults   []string `json:"faults,omitempty"`
+	MaxFault int      `json:"max_faults,omitempty"`
+	Resend   bool     `json:"resend,omitempty"`
+	Types    []string `json:"types,omitempty"`
+}
+
+const assumeE2 = "whole system in one testing/synctest bubble per execution: real OrdaService, real server/mongodb over mongo-driver 1.10.1 speaking the wire protocol to the in-memory mongofake, real Notifier over an MQTT stand-in, real SDK clients over an in-process RPC stub (protobuf round trip per message); virtual time; background goroutines drained after every action"
+
+func e2run(name string, p e2p, depth, maxState int) Run {
+	return Run{Name: name, Check: "E2", Depth: depth, MaxState: maxState, Params: p}
+}
+
+func init() {
+	plans["C05"] = func(tier string) Plan {
+		p := Plan{ID: "C05", Level: "model_checking",
+			Rule: "breadth-first search over all interleavings of {open datatype (create/subscribe/subscribe-or-create), local operation, Sync} of real SDK clients against the real service; " +
+				"state = canonical database dump + every client datatype's export, pending operations, checkpoint and handler events; after every action: checkpoints never move backwards; " +
+				"at the closure (three fault-free sync rounds) of EVERY state: all subscribed clients equal per key, equal to snapshot.Manager.GetLatestDatatype(), and each client's " +
+				"remote-operation handler saw exactly the other clients' logged operations in sseq order; non-trivial = a client has own operations and applied remote ones",
+			Assume: []string{assumeE2, assumeInstr}}
+		o := []string{"converge", "applied", "checkpoint", "log"}
+		if tier == "quick" {
+			p.BudgetS = 420
+			p.Runs = []Run{
+				e2run("counter-2c-entry-d5", e2p{Clients: 2, Type: "counter", Oracles: o}, 5, 0),
+				e2run("counter-2c-joined-d5", e2p{Clients: 2, Type: "counter", Prefix: "joined", Oracles: o}, 5, 0),
+				e2run("list-2c-joined-d4", e2p{Clients: 2, Type: "list", Prefix: "joined", Oracles: o}, 4, 0),
+				e2run("map-3c-joined-d4", e2p{Clients: 3, Type: "map", Prefix: "joined", Oracles: o}, 4, 0),
+				e2run("doc-2c-joined-d3", e2p{Clients: 2, Type: "doc", Prefix: "joined", Oracles: o}, 3, 0),
+			}
+		} else {
+			p.BudgetS = 3300
+			p.Runs = []Run{
+				e2run("counter-2c-d7", e2p{Clients: 2, Type: "counter", Oracles: o}, 7, 300000),
+				e2run("counter-2c-joined-d7", e2p{Clients: 2, Type: "counter", Prefix: "joined", Oracles: o}, 7, 300000),
+				e2run("list-2c-joined-d6", e2p{Clients: 2, Type: "list", Prefix: "joined", Alpha: "batch", Oracles: o}, 6, 300000),
+				e2run("map-3c-joined-d5", e2p{Clients: 3, Type: "map", Prefix: "joined", Oracles: o}, 5, 300000),
+				e2run("doc-2c-joined-d5", e2p{Clients: 2, Type: "doc", Prefix: "joined", Oracles: o}, 5, 300000),
+				e2run("list-3c-joined-d5", e2p{Clients: 3, Type: "list", Prefix: "joined", Oracles: o}, 5, 300000),
+				e2run("counter-3c-d6", e2p{Clients: 3, Type: "counter", Modes: []string{"soc"}, Oracles: o}, 6, 300000),
+				e2run("map-2c-d6", e2p{Clients: 2, Type: "map", Modes: []string{"soc"}, Oracles: o}, 6, 300000),
+				e2run("list-2c-d6", e2p{Clients: 2, Type: "list", Modes: []string{"soc"}, Oracles: o}, 6, 300000),
+				e2run("doc-2c-d5", e2p{Clients: 2, Type: "doc", Modes: []string{"soc"}, Oracles: o}, 5, 300000),
+				e2run("counter-2c-3keys-joined-d5", e2p{Clients: 2, Type: "counter", Keys: []string{"k1", "k2", "k3"}, Prefix: "joined", Exchange: "pack", Alpha: "one", Oracles: o}, 5, 300000),
+				e2run("counter-6c-d6", e2p{Clients: 6, Type: "counter", Modes: []string{"soc"}, Alpha: "one", Oracles: o}, 6, 300000),
+			}
+		}
+		return p
+	}
+}
+
+func init() {
+	plans["C06"] = func(tier string) Plan {
+		p := Plan{ID: "C06", Level: "model_checking",
+			Rule: "breadth-first search over request histories of 1-3 real clients: pushes of 0..n operations (batch = local operations since the last sync), empty pushes, verbatim re-sending of a client's " +
+				"previous request (acknowledged operations pushed again), pushes after others advanced the log; after EVERY request on the database dump: sseq 1..n gapless with _id = duid:sseq, " +
+				"n = recorded end of log, per-client seq increasing and contiguous from 1, every acknowledged operation stored exactly as issued, every stored checkpoint within what is stored",
+			Assume: []string{assumeE2, assumeInstr}}
+		o := []string{"log", "converge"}
+		if tier == "quick" {
+			p.BudgetS = 420
+			p.Runs = []Run{
+				e2run("counter-2c-joined-d5", e2p{Clients: 2, Type: "counter", Prefix: "joined", Resend: true, Oracles: o}, 5, 0),
+				e2run("list-2c-joined-d4", e2p{Clients: 2, Type: "list", Prefix: "joined", Resend: true, Oracles: o}, 4, 0),
+				e2run("counter-1c-d5", e2p{Clients: 1, Type: "counter", Resend: true, Oracles: o}, 5, 0),
+			}
+		} else {
+			p.BudgetS = 3300
+			p.Runs = []Run{
+				e2run("counter-2c-joined-d7", e2p{Clients: 2, Type: "counter", Prefix: "joined", Resend: true, Oracles: o}, 7, 300000),
+				e2run("counter-3c-joined-d6", e2p{Clients: 3, Type: "counter", Prefix: "joined", Resend: true, Oracles: o}, 6, 300000),
+				e2run("list-2c-joined-d6", e2p{Clients: 2, Type: "list", Prefix: "joined", Resend: true, Oracles: o}, 6, 300000),
+				e2run("map-2c-entry-d6", e2p{Clients: 2, Type: "map", Resend: true, Oracles: o}, 6, 300000),
+				e2run("counter-6c-joined-d4", e2p{Clients: 6, Type: "counter", Prefix: "joined", Resend: true, Oracles: o}, 4, 300000),
+			}
+		}
+		return p
+	}
+	plans["C07"] = func(tier string) Plan {
+		p := Plan{ID: "C07", Level: "fault_enumeration",
+			Rule: "breadth-first search over pack-level exchange histories (CreatePushPullPack -> real service -> ApplyPushPullPack) of 2-3 clients with every placement of up to max_faults " +
+				"transport faults {response dropped, request delivered twice, response held and applied after later exchanges; a retry is just the next exchange}; at the fault-free closure of EVERY state: " +
+				"every issued operation stored exactly once, all replicas and the server rebuild equal, equal to the outcome of applying each logged operation once (C02 reference), and each client's " +
+				"applied-remote sequence is exactly the others' logged operations in order; non-trivial = a client has own operations and applied remote ones",
+			Assume: []string{assumeE2, assumeInstr, "random fault placement on long histories (sampling) is outside this family and not claimed"}}
+		o := []string{"log", "converge", "applied", "issued", "reference"}
+		f := []string{"drop", "dup", "late"}
+		if tier == "quick" {
+			p.BudgetS = 480
+			p.Runs = []Run{
+				e2run("counter-2c-f1-d5", e2p{Clients: 2, Type: "counter", Prefix: "joined", Exchange: "pack", Faults: f, MaxFault: 1, Alpha: "one", Oracles: o}, 5, 0),
+				e2run("list-2c-f1-d4", e2p{Clients: 2, Type: "list", Prefix: "joined", Exchange: "pack", Faults: f, MaxFault: 1, Oracles: o}, 4, 0),
+				e2run("counter-2c-entry-f1-d5", e2p{Clients: 2, Type: "counter", Modes: []string{"soc"}, Exchange: "pack", Faults: []string{"drop", "dup"}, MaxFault: 1, Alpha: "one", Oracles: o}, 5, 0),
+				e2run("counter-2c-entry-cs-f1-d5", e2p{Clients: 2, Type: "counter", Modes: []string{"create", "subscribe"}, Exchange: "pack", Faults: []string{"drop", "dup"}, MaxFault: 1, Alpha: "one", Oracles: o}, 5, 0),
+			}
+		} else {
+			p.BudgetS = 3300
+			p.Runs = []Run{
+				e2run("counter-2c-f2-d7", e2p{Clients: 2, Type: "counter", Prefix: "joined", Exchange: "pack", Faults: f, MaxFault: 2, Alpha: "one", Oracles: o}, 7, 300000),
+				e2run("list-2c-f2-d6", e2p{Clients: 2, Type: "list", Prefix: "joined", Exchange: "pack", Faults: f, MaxFault: 2, Oracles: o}, 6, 300000),
+				e2run("counter-3c-f1-d6", e2p{Clients: 3, Type: "counter", Prefix: "joined", Exchange: "pack", Faults: f, MaxFault: 1, Alpha: "one", Oracles: o}, 6, 300000),
+				e2run("map-2c-f2-d6", e2p{Clients: 2, Type: "map", Prefix: "joined", Exchange: "pack", Faults: f, MaxFault: 2, Oracles: o}, 6, 300000),
+			}
+		}
+		return p
+	}
+}
+
+func init() {
+	plans["C13"] = func(tier string) Plan {
+		p := Plan{ID: "C13", Level: "model_checking",
+			Rule: "breadth-first search over histories of {open(key, create|subscribe|subscribe-or-create), local operation, Sync} of 2-3 real clients whose datatype types agree or differ; before every Sync the harness " +
+				"predicts from the stored collections whether each pending entry must be refused (create on an existing key, subscribe to a missing key, key of another type); after it: refusals reach the error " +
+				"handler, leave the database dump unchanged and the datatype unsubscribed; valid entries end SUBSCRIBED with exactly one state-change report and, for subscribers, a first state equal to the " +
+				"replay of log[1..s]; the search continues behind refusals (harmlessness). Racing entries are explored by the schedule search of the same check (see runs named race-*)",
+			Assume: []string{assumeE2, assumeInstr}}
+		o := []string{"entry", "log", "converge"}
+		if tier == "quick" {
+			p.BudgetS = 480
+			p.Runs = []Run{
+				e2run("counter-2c-d5", e2p{Clients: 2, Type: "counter", Oracles: o, Alpha: "one"}, 5, 0),
+				e2run("counter-vs-map-2c-d4", e2p{Clients: 2, Type: "counter", Types: []string{"counter", "map"}, Oracles: o, Alpha: "one"}, 4, 0),
+				e2run("list-2c-d4", e2p{Clients: 2, Type: "list", Oracles: o}, 4, 0),
+			}
+		} else {
+			p.BudgetS = 3300
+			p.Runs = []Run{
+				e2run("counter-2c-d7", e2p{Clients: 2, Type: "counter", Oracles: o, Alpha: "one"}, 7, 300000),
+				e2run("counter-3c-d5", e2p{Clients: 3, Type: "counter", Oracles: o, Alpha: "one"}, 5, 300000),
+				e2run("counter-vs-map-2c-d6", e2p{Clients: 2, Type: "counter", Types: []string{"counter", "map"}, Oracles: o, Alpha: "one"}, 6, 300000),
+				e2run("list-vs-doc-2c-d5", e2p{Clients: 2, Type: "list", Types: []string{"list", "doc"}, Oracles: o}, 5, 300000),
+				e2run("list-2c-d5", e2p{Clients: 2, Type: "list", Oracles: o}, 5, 300000),
+				e2run("counter-2c-2keys-d5", e2p{Clients: 2, Type: "counter", Keys: []string{"k1", "k2"}, Exchange: "pack", Oracles: o, Alpha: "one"}, 5, 300000),
+			}
+		}
+		return p
+	}
+	plans["C18"] = func(tier string) Plan {
+		p := Plan{ID: "C18", Level: "model_checking",
+			Rule: "(a) breadth-first search over sync histories (entry modes, batches, re-sent requests): after EVERY request exactly one notification per datatype whose log grew, on topic collection/key with payload " +
+				"{pusher id, datatype id, new end of log}, none otherwise; (b) see the realtime schedule-search runs of this check",
+			Assume: []string{assumeE2, assumeInstr}}
+		o := []string{"notify", "log", "converge"}
+		if tier == "quick" {
+			p.BudgetS = 480
+			p.Runs = []Run{
+				e2run("notify-counter-2c-entry-d5", e2p{Clients: 2, Type: "counter", Oracles: o, Resend: true, Alpha: "one"}, 5, 0),
+				e2run("notify-list-2c-joined-d4", e2p{Clients: 2, Type: "list", Prefix: "joined", Resend: true, Oracles: o}, 4, 0),
+				e2run("notify-counter-2c-2keys-joined-d4", e2p{Clients: 2, Type: "counter", Keys: []string{"k1", "k2"}, Prefix: "joined", Exchange: "pack", Oracles: o, Alpha: "one"}, 4, 0),
+			}
+		} else {
+			p.BudgetS = 3300
+			p.Runs = []Run{
+				e2run("notify-counter-2c-entry-d7", e2p{Clients: 2, Type: "counter", Oracles: o, Resend: true, Alpha: "one"}, 7, 300000),
+				e2run("notify-list-2c-joined-d6", e2p{Clients: 2, Type: "list", Prefix: "joined", Resend: true, Oracles: o}, 6, 300000),
+				e2run("notify-counter-3c-2keys-joined-d5", e2p{Clients: 3, Type: "counter", Keys: []string{"k1", "k2"}, Prefix: "joined", Exchange: "pack", Oracles: o, Alpha: "one"}, 5, 300000),
+				e2run("notify-doc-2c-joined-d5", e2p{Clients: 2, Type: "doc", Prefix: "joined", Oracles: o}, 5, 300000),
+			}
+		}
+		return p
+	}
+}
+
+func init() {
+	plans["C16"] = func(tier string) Plan {
+		p := Plan{ID: "C16", Level: "exploration",
+			Rule: "from a base scenario (two clients subscribed to two keys, two unpushed operations) every single mutation of a valid PushPullMessage is sent to the real service: unknown / empty / foreign " +
+				"client, collection, datatype id and key, every option-bit combination 0x01..0x7f, checkpoints zero / ahead / swapped / missing, operation lists with gaps, repeats, reordering, foreign " +
+				"client ids, stale sequence numbers, wrong operation type, garbage body, changed type and era, no pack, two packs of one key (thorough: pairs of mutations); oracle: the call returns " +
+				"within 60 virtual seconds, the worker survives, a refusal leaves the dump unchanged, the log invariants hold, an SDK client applying the response reports errors through its handler " +
+				"without panicking, and afterwards both correct clients continue and converge; distinct non-trivial = distinct (mutation, outcome class)",
+			Assume: []string{assumeE2, assumeInstr}}
+		if tier == "quick" {
+			p.BudgetS = 480
+			p.Runs = []Run{{Name: "mutations-counter", Check: "C16", Kind: "mutreq", Cases: true, Params: map[string]interface{}{"type": "counter"}, Shards: 16}}
+		} else {
+			p.BudgetS = 3300
+			p.Runs = []Run{
+				{Name: "mutation-pairs-counter", Check: "C16", Kind: "mutreq", Cases: true, Params: map[string]interface{}{"type": "counter", "pairs": true}, Shards: 16},
+				{Name: "mutations-list", Check: "C16", Kind: "mutreq", Cases: true, Params: map[string]interface{}{"type": "list"}, Shards: 16},
+				{Name: "mutations-doc", Check: "C16", Kind: "mutreq", Cases: true, Params: map[string]interface{}{"type": "doc"}, Shards: 16},
+			}
+		}
+		return p
+	}
+}
